@@ -612,6 +612,10 @@ def namedHook (id : String) (fs : List (String × Val)) : Except Exc (List (Stri
   else if id.startsWith "fill:" then
     let f := (id.drop 5).toString
     .ok (fs.filter (·.1 != f) ++ [(f, .int 0)])
+  else if id.startsWith "assign:" then
+    -- the same by plain assignment on a class that is not frozen (the harness keeps the set record as it was)
+    let f := (id.drop 7).toString
+    .ok (fs.filter (·.1 != f) ++ [(f, .int 0)])
   else .ok fs
 
 /-- tagging converters for C18: `tagint:<k>` multiplies ints by k, `tagstr:<s>` appends s to strings -/
